@@ -47,6 +47,8 @@ for pid in sorted(d[5:] for d in os.listdir(root) if d.startswith("seed_C")):
         base = None
         if os.path.isdir(wt):
             base = subprocess.run(["git", "-C", wt, "rev-parse", "--short", "HEAD"], capture_output=True, text=True).stdout.strip()
+        if not base:     # the agents' worktrees are removed at the end; their base commits were:
+            base = "c5117bd" if pid in ("C03", "C06", "C07", "C12", "C20") else "83b21a8"
         r = results.get(key, {})
         out = {
             "property": pid,
